@@ -7,7 +7,8 @@ import SimplicityModel.Routes
 `route F P|N <plan> [T:…] N:i:<name>… M:<name>:<type>:<bits>…`   `Forest::to_witness_node(&map)` with
       witness node `i` named `N`, then `finalize_unpruned`
 `route P P|N <plan> [T:…] V:… X:i:L|R… [E:fail]`                 `finalize_pruned`; `X` = the case nodes
-      of which the real run used only the left / only the right branch; `E:fail` = the real run failed
+      of which the real run used only the left / only the right branch; `E:fail` = the real run failed;
+      re-inference as the code does it (`Routes.codeLeaks`: constraints of removed branches stay)
 `route D <plan> [T:…] B:<bits>`                                   the witness stream of `RedeemNode::decode`
 → `ok W:i:<target type>:<compact bits>…` (every witness node of the resulting program) | `err` |
   `err-exec`.  Runs `Routes.routeU/forestRoute/routeP/decodeRoute`, the functions the theorems of
@@ -78,7 +79,7 @@ def routeOp (kind : String) (program : Bool) (toks : List String) : String :=
             match routeU jt p program (lookupNat e.cands) with
             | .ok _ _ => "err-exec"
             | o => showOutcome o
-          else showOutcome (routeP jt p program (lookupNat e.cands) (cutOf p (lookupNat e.sides)))
+          else showOutcome (routeP jt codeLeaks p program (lookupNat e.cands) (cutOf p (lookupNat e.sides)))
         else if kind = "D" then
           let o := decodeRoute jt p e.bits
           -- the recursive reader of `Routes` against the loop of `Prog/Codec.lean`
